@@ -2,7 +2,7 @@
 from .common import *
 
 RULE = ("histories: ALL sequences over {next, next_back, clone, nth(k), nth_back(k)} with k in {0..N+1, usize::MAX-1, "
-        "usize::MAX} up to the stated depth (iterative deepening, branching through clone()), each call compared in "
+        "1<<32, 1<<63, usize::MAX} up to the stated depth (iterative deepening, branching through clone()), each call compared in "
         "lock-step with std::vec::IntoIter over the model list (item, len(), size_hint() after every call, 6 extra "
         "calls after exhaustion, no panic), in debug (overflow checks on) and release profiles, plus seeded random walks "
         "and skip/step_by/rev/take/cycle adapter probes with k up to usize::MAX. non-trivial: history length >= 2; "
